@@ -27,7 +27,7 @@ import (
 func main() {
 	prop := flag.String("prop", "C02", "C02|C13 (only changes the report header)")
 	only := flag.String("only", "", "run only the schedule with this id (replay)")
-	families := flag.String("family", "", "comma separated list of schedule families to run (default: all): exhaustive scripted slow random baseline big serverfirst")
+	families := flag.String("family", "", "comma separated list of schedule families to run (default: all): exhaustive scripted slow exact closerace random baseline big serverfirst")
 	serverFirst := flag.Int("serverfirst", 0, "number of extra fault-free schedules in which the server application writes >= 17 fragments immediately after Accept (race fixed by fixes/C02-server-write-before-open-response.diff; oracle sig server-write-overtakes-open-response)")
 	mutate := flag.String("mutate", "", "self-test of the oracle: corrupt the recorded observation of the first suitable schedule (retx|ack|gap|bytes)")
 	r := vh.Start("c02")
@@ -137,10 +137,10 @@ func main() {
 			}
 			r.Distinct(fmt.Sprintf("%s|%s|%d|%s|%s|%s|%s", sc.Family, sc.faultName(), sc.MTU, s.Shape, fw, le, multi))
 		}
-		fmt.Fprintf(lg, "%s %s fault=%s mtu=%d le=%d lat=%dms loss=%d dup=%d reorder=%d sessions=%d bytes=%d datagrams=%d drops=%d dups=%d delays=%d retx=%d win0=%d reopen=%d forced=%d fired=%d/%d complete=%d/%d timedout=%v virtual=%v wall=%dms lines=%d failures=%v\n",
+		fmt.Fprintf(lg, "%s %s fault=%s mtu=%d le=%d lat=%dms loss=%d dup=%d reorder=%d sessions=%d bytes=%d datagrams=%d drops=%d dups=%d delays=%d retx=%d win0=%d reopen=%d forced=%d fired=%d/%d complete=%d/%d timedout=%v virtual=%v wall=%dms lines=%d stalls=%d variant=%d failures=%v\n",
 			sc.ID, sc.Family, sc.faultName(), sc.MTU, sc.LEMode, sc.LatencyMs, sc.LossPct, sc.DupPct, sc.ReorderPct, len(sc.Sessions), sc.totalBytes(),
 			res.fst.datagrams, res.fst.drops, res.fst.dups, res.fst.delays, res.fst.retx, res.fst.win0, res.fst.reopen, res.fst.forced,
-			res.fst.faultsFired, len(sc.Faults), sum.complete, sum.sessions, res.timedOut, res.virtual.Round(time.Millisecond), res.wallMs, sum.lines, sum.failures)
+			res.fst.faultsFired, len(sc.Faults), sum.complete, sum.sessions, res.timedOut, res.virtual.Round(time.Millisecond), res.wallMs, sum.lines, res.stalls, sc.Sessions[0].Variant, sum.failures)
 		return res, sum
 	}
 
@@ -161,7 +161,7 @@ func main() {
 		}
 		exhaustiveN = append(exhaustiveN, n)
 		for i := 0; i < n; i++ {
-			for _, k := range kinds {
+			for _, k := range exKinds {
 				runOne(g.exhaustiveFault(base, i, k))
 			}
 		}
@@ -200,6 +200,23 @@ func main() {
 	}
 	for _, k := range slowKinds {
 		runOne(g.slow(k, 4600*33))
+	}
+
+	// the window closes exactly (nothing in flight) and only the receiver's heartbeat ack can reopen it
+	exactKinds := []string{""}
+	if thorough {
+		exactKinds = []string{"", "", "dup", "delay"}
+	}
+	for i, k := range exactKinds {
+		runOne(g.exact(i%2 == 0, k))
+	}
+	// Close while a Write is in progress and the output loop is inside a slow WriteTo
+	nRace := 600
+	if thorough {
+		nRace = 3000
+	}
+	for i := 0; i < nRace; i++ {
+		runOne(g.closeRace())
 	}
 
 	// ---- family (c): sustained random loss / duplication / reordering under the fairness bounds
@@ -271,11 +288,14 @@ func main() {
 		runOne(s)
 	}
 
-	r.Rep.Rule = "Each case is the per-session event trace (application Write/Read markers and every decoded datagram emission/delivery, in the total order of the simnet log, cut at Close) " +
+	r.Rep.Rule = "Each case is the per-session event trace (application Write/Read markers and every decoded datagram emission/delivery, in the total order of the simnet log; an X line marks the first Close, after it only emissions are recorded and only content equality per sequence number is judged) " +
 		"of a real client Mux and server Mux talking UDP over an in-memory network in virtual time. Schedules: (a) scripted single faults (drop / duplicate / delay-reorder of the open request, " +
 		"open response, k-th data datagram, k-th ack, a retransmission, the datagram that reopens a closed receive window); (b) for a short request/response session the fault-free run is " +
 		"counted (n datagrams) and then every position i<n x {drop, duplicate, delay} is run with exactly that fault on the i-th datagram - this family is exhaustive for that session " +
 		fmt.Sprintf("(n per variant: %v); ", exhaustiveN) +
+		"the short session has three request/response rounds so that data flows in both directions after the fault, the fault kinds are drop, duplicate right behind the original, duplicate 25 ms later, delay 45 ms, and the positions include the close request/response datagrams; " +
+		"(x) the receive window closes EXACTLY (one-segment messages, the last ones paced one per round trip, nothing in flight when the backlog reaches segmentTreeCapacity; the receiving application reads only after its endpoint advertised window 0) so that only the receiver's heartbeat ack can reopen it; " +
+		"(r) close races: the client application calls Close while a client Write is in progress and the output loop sits in a slow WriteTo of the wrapped client socket (holding the output lock), GOMAXPROCS 2; these sessions are judged on safety only; " +
 		"(c) sustained random loss 1..40 %, duplication 0..10 %, reordering 0..30 %, latency 1..50 ms under the fairness bounds in notes.fairness; plus fault-free, idle (heartbeat) and slow-reader " +
 		"(receive window closes and reopens) schedules, MTU in {1280,1281,1350,1400,1499,1500}, low-entropy patterns, 1..4 sessions per underlay, request/response and concurrent duplex traffic, " +
 		"first Write <= 1024 bytes and > 1024 bytes. The server application starts 1 ms (virtual) after Accept, except in the optional -serverfirst schedules. All sizes, contents and fault choices derive from -seed. A class (distinct_nontrivial) is (family, fault kind, MTU, traffic shape, first-write class, " +
